@@ -375,6 +375,29 @@ def enumerate_forms(switches=frozenset()):
             return stats
         stats.case(key=["form", form], nontrivial=form in OPTIONAL_OMITTED, classes=["form_table", "form_" + form.split()[0]],
                    sample={"form": form, "source": case.get("_source", "")})
+    # the speed pokes change what a later SOUND passes: every order of the two pokes (decimal and hex spellings) in front of a SOUND
+    P = lambda a, v: ["poke", a, ["num", str(v), v]]
+    D = lambda n: ["num", str(n), n]
+    fast, slow = [D(65497), ["hex", "FFD9"]], [D(65496), ["hex", "FFD8"]]
+    snd = ["sound", ["num", "100", 100], ["num", "3", 3]]
+    seqs = []
+    for f_ in fast:
+        seqs.append([P(f_, 0), snd])
+        seqs.append([snd, P(f_, 0), snd])
+        for s_ in slow:
+            seqs.append([P(f_, 0), P(s_, 0), snd])
+            seqs.append([P(s_, 0), P(f_, 0), snd, P(s_, 1), snd])
+    for s_ in slow:
+        seqs.append([P(s_, 0), snd])
+    for i, seq in enumerate(seqs):
+        g = cbgen.Gen(None, switches)
+        case = {"prog": build_program(seq, g)}
+        try:
+            check_case(case)
+        except Violation as v:
+            stats.fail(v.detail, v.case)
+            return stats
+        stats.case(key=["speed_sequence", i], nontrivial=True, classes=["form_table", "speed_poke_then_sound"], sample={"source": case.get("_source", "")})
     stats.exhaustive = True
     return stats
 
